@@ -31,3 +31,40 @@ Definition v0_script : heap * slice * slice :=
   let '(h5, o2) := designate_v0 pol_double h4 x [5%N] in
   (h5, o1, o2).
 
+
+(* ---- a whole script of option constructors on the level of slices ---------------------- *)
+(* Model/Options.v builds the options of a call by a script [bop] over option VALUES
+   ([build]); here the same script runs over a heap: every built Option is its items, its
+   handlers and the slice header of its paths (a path pointer is an id).
+     WithXxxOption / WithLambdaOption:  paths: make([]*NodePath, 0)
+     WithCallbacks:                     paths: nil
+     o.DesignateNodeWithPath(ps...):    designate_go on o's header *)
+Inductive sop : Type :=
+| SItems (its : list (N * N))
+| SHandlers (hs : list N)
+| SDesignate (parent : nat) (ps : list elem).
+
+Record sopt : Type := mkSopt { s_items : list (N * N); s_handlers : list N; s_paths : slice }.
+
+Definition build_go_one (pol : policy) (h : heap) (env : list sopt) (b : sop) : option (heap * sopt) :=
+  match b with
+  | SItems its => let m := make h 0 0 in Some (fst m, mkSopt its [] (snd m))
+  | SHandlers hs => Some (h, mkSopt [] hs nil_slice)
+  | SDesignate j ps =>
+      match nth_error env j with
+      | Some o => let r := designate_go pol h (s_paths o) ps in
+                  Some (fst r, mkSopt (s_items o) (s_handlers o) (snd r))
+      | None => None
+      end
+  end.
+
+Fixpoint build_go (pol : policy) (h : heap) (script : list sop) (env : list sopt)
+  : option (heap * list sopt) :=
+  match script with
+  | [] => Some (h, env)
+  | b :: s' =>
+      match build_go_one pol h env b with
+      | Some (h', o) => build_go pol h' s' (env ++ [o])
+      | None => None
+      end
+  end.
